@@ -326,8 +326,7 @@ def cases(tier):
         out.append((3, True, 'generic+gupcut', 'Riemann_uddd-first', tier))
         out.append((2, True, 'generic', 'Riemann_down-first', tier))
         out.append((3, True, 'generic+gupcut', 'Riemann_down-first', tier))
-        out.append((4, True, 'generic+gupcut', 'Riemann_uddd-first', tier))
-        out.append((3, True, 'polynomial', 'Riemann_uddd-first', tier))
+        # measured: (4, True, generic+gupcut) and (3, True, polynomial) do not finish in 20 min (sympy.simplify) - not part of any tier
     return out
 
 
@@ -352,9 +351,9 @@ def defaults_and_errors(report):
 def main(report, tier, seed, workers, calibrate=False):
     cs = cases(tier)
     report.bounds = dict(dimensions=[2, 3, 4], metrics='undetermined functions of all coordinates in every entry (simplify=False: dim 2-4; '
-                         'simplify=True: dim 2); committed polynomial family with symbolic parameters (simplify=True: dim 3 quick, 3-4 thorough)',
+                         'simplify=True: dim 2 quick, dim 2-3 thorough (inverse metric cut in 3D))',
                          request_orders=list(ORDERS), components='all (thorough) / up to 40 per quantity (quick)', jet_order=2,
-                         outside=['metrics with non-rational entries', 'sympy.simplify on generic 3D/4D metrics (too slow): polynomial family instead'])
+                         outside=['metrics with non-rational entries', 'sympy.simplify on generic 4D metrics and on the polynomial 3D family (measured: not finished in 20 min)'])
     report.assumptions += ['det g != 0', 'sympy.diff on the metric entries is correct (basic operation); sympy.simplify IS inside the check']
     report.stubs += ['none: the real AurelCoreSymbolic runs on sympy objects; results are translated atom-by-atom into SMT terms']
     with FuncTrace() as ft:
